@@ -1,17 +1,18 @@
 #!/bin/sh
-# usage: tools/verify_seed.sh <seed_out_dir> <demo test filter>
+# usage: tools/verify_seed.sh <seed_out_dir> "<cargo test args selecting the demo>"
 # Confirms a seeded change in a scratch worktree of /repo: (1) demo passes without the patch,
-# (2) patch applies and compiles, (3) demo fails with the patch, (4) the pinned baseline still passes.
+# (2) patch applies and compiles, (3) demo fails with the patch, (4) the pinned baseline still passes
+# with the patch alone.  Uses a private target dir (never share one between concurrent jobs).
 set -u
-d="$1"; filt="${2:-}"
+d="$1"; args="${2:-}"
 w=/tmp/seedverify.$$
 git -C /repo worktree add -q --detach "$w" HEAD || exit 2
 export CARGO_TARGET_DIR=${SV_TARGET:-/tmp/sv-target} CARGO_NET_OFFLINE=true INSTA_UPDATE=no
 cd "$w"
 git apply "$d/demo.diff" || { echo "demo.diff does not apply"; cd /; git -C /repo worktree remove --force "$w"; exit 2; }
-echo "== demo without patch"; cargo test --offline -p rustic_core $filt 2>&1 | grep -E "^test result|^test .*(ok|FAILED)|error(\[|:)" | head -20
+echo "== demo without patch"; cargo test --offline -p rustic_core $args 2>&1 | grep -E "^test result|^test .*(ok|FAILED)|^error" | grep -v " 0 passed; 0 failed" | head -20
 git apply "$d/patch.diff" || { echo "patch.diff does not apply"; cd /; git -C /repo worktree remove --force "$w"; exit 2; }
-echo "== demo with patch"; cargo test --offline -p rustic_core $filt 2>&1 | grep -E "^test result|^test .*(ok|FAILED)|error(\[|:)" | head -20
-git apply -R "$d/demo.diff"
-echo "== baseline with patch"; /verif/tools/baseline.sh "$w" ${SV_TARGET:-/tmp/sv-target} | head -8
+echo "== demo with patch"; cargo test --offline -p rustic_core $args 2>&1 | grep -E "^test result|^test .*(ok|FAILED)|^error" | grep -v " 0 passed; 0 failed" | head -20
+git apply -R "$d/demo.diff"; git clean -fdq
+echo "== baseline with patch only"; /verif/tools/baseline.sh "$w" "$CARGO_TARGET_DIR" | head -8
 cd /; git -C /repo worktree remove --force "$w"
